@@ -625,7 +625,7 @@ def run(ctx):
     n_wf = int(os.environ.get('C33_WF', ctx.budget(18, 150)))
     # the machine is shared: generation also stops on a wall-clock limit (never below a floor); the counts that
     # were actually run are what the evidence reports
-    limit = (60 if ctx.tier == "quick" else 400) * min(ctx.widen, 3)
+    limit = (60 if ctx.tier == "quick" else 330) * min(ctx.widen, 3)
     floor_direct, floor_wf = (60, 8) if ctx.tier == "quick" else (400, 40)
     cases, metas = [], []
     try:
